@@ -110,7 +110,16 @@ Two DIFFERENT changes (call them {pid}-{k1} and {pid}-{k2}) to the library's non
    components, the zero date-time and date-times before 1970, each zone's reading of the Unix epoch and 2^31 / 2^32 seconds,
    meaningful MAC addresses (zero, broadcast), numbers with leading zeros, door lists of any length, any signal number, stray
    replies and 0x19 status replies on the broadcast path, decoding address text into variables that hold a value, inputs
-   of more than 2^32 digits, discoveries queued behind a held bind port:
+   of more than 2^32 digits, discoveries queued behind a held bind port, a closed port that opens between two calls, clients
+   without a bind address after clients with one, several kinds of network fault met by one client in a row, consecutive valid
+   calls with cross-referring arguments, clients rebuilt from an edited list, results kept as struct copies across garbage
+   collections, strings that die right after a call, pointer templates, empty batches, status replies whose clocks coincide
+   (also a century apart), zones that fall back minutes from now, zero instants in eastern locations, same-named zones with
+   different rules, storms of 10^5 datagrams within one call, discoveries with thousands of datagrams, floods that run
+   before the call starts, bind port = controller port = listen port, segment maps with extra keys, concurrent comparisons
+   and concurrent client construction, malformed datagrams while a stopping callback is busy, addresses wrapped in URL / CIDR
+   syntax, every JSON leaf replaced by null and other shapes, socket counts with the garbage collector off, windows at every
+   alignment:
    look for what such testing still would NOT reach.
 
 Changes of earlier rounds - do NOT repeat these or close variants of them; find a different mechanism, a different
